@@ -29,7 +29,7 @@ class MaskModel(object):
         self.fi = repo.func(SIG + ':_mask')
         self.pub = repo.func(SIG + ':mask')
         self._roles()
-        self.interp = Interp(repo, Policy(inline=_no_inline))
+        self.interp = Interp(repo, Policy(inline=_no_inline, split_ifexp='assign-only'))
         self.paths = self.interp.run(self.fi)
         # the classification result
         self.sr = None
@@ -343,9 +343,12 @@ def name_loops(model):
         score = sum(1 for k in FLAGS + ['num_args'] if g.get(k) is False)
         for e in p.effects:
             if e.kind == 'loop' and e.target == model.role_term('named_args'):
-                cur = best.get(e.ctx)
+                # (one representative per value of the partial mode the surrounding path has settled: what is computed from
+                # it before the loop -- `bound = named_args if partial_mode else {}` -- differs between them)
+                bk = (e.ctx, g.get('partial'))
+                cur = best.get(bk)
                 if cur is None or score > cur[0]:
-                    best[e.ctx] = (score, e, p)
+                    best[bk] = (score, e, p)
     return [(e, p) for score, e, p in best.values()]
 
 
@@ -379,6 +382,8 @@ def rule_mask_names(check, model, rules):
                         pass
             # objects
             g = {}
+            if og.get('partial') is not None:
+                g['partial'] = og['partial']
             unknown = []
             index_dicts = set()
             for atom, pol in sp.lits:
@@ -386,7 +391,12 @@ def rule_mask_names(check, model, rules):
                 if k == 'in' and atom[1] == el:
                     c = atom[2]
                     role = _container_role(model, c, carried)
-                    if role is None:
+                    if role is None and c == ('A', model.role_term('sig'), 'parameters'):
+                        # "is it a parameter name of the input at all": true of live names, of consumed ones, of
+                        # positional-only ones and of the star parameters' own names -- a fact about the input which the
+                        # other guards do not determine, so the row of the table is decided without it
+                        g['in_input_parameters'] = pol
+                    elif role is None:
                         unknown.append((atom, pol))
                     else:
                         g[role] = pol
@@ -397,6 +407,15 @@ def rule_mask_names(check, model, rules):
                 elif k == 'isnone' and atom[1][0] == 'S' and _is_bucket_element(model, atom[1], carried):
                     # an element of a parameter bucket is a Parameter, never None
                     if pol:
+                        g['__infeasible__'] = True
+                elif k == 'isnone' and atom[1] in (('S', named, el), ('M', named, 'get', (el,), ()), ('M', named, 'get', (el, NONE), ())):
+                    # "the value bound to the name is None": a fact about the input (partial(f, a=None) is legal) which no
+                    # other guard determines; the row of the table is decided without it
+                    g['bound_value_is_none'] = pol
+                elif k == 'isnone' and atom[1][0] == 'M' and atom[1][2] == 'get' and model.is_empty_fresh(atom[1][1]) \
+                        and len(atom[1][3]) == 1:
+                    # {}.get(name) is None
+                    if not pol:
                         g['__infeasible__'] = True
                 elif k == 'truthy':
                     t = atom[1]
@@ -458,6 +477,10 @@ def rule_mask_names(check, model, rules):
 
             def add(cat, text):
                 msgs.append((cat, text))
+                if cat == 'table' and ', partial"' in text:
+                    # "keywords bound by a partial appear as keyword-only parameters whose default is the bound value" (C10)
+                    # is about these rows of the table too, not only about the default's value
+                    msgs.append(('pdefault', text))
 
             # which rows can this path be in?
             rows = []
@@ -505,7 +528,7 @@ def rule_mask_names(check, model, rules):
                                         add('table', 'row "keyword-only, partial": replaced by a parameter named %s' % show(built['name'])[:40])
                                     if kind_of_attr_term(built['kind']) != 'KWO':
                                         add('kinds', 'row "keyword-only, partial": kind changed to %s' % kind_of_attr_term(built['kind']))
-                                    if built['default'] != ('S', named, el):
+                                    if not _bound_value(built['default'], named, (el,)):
                                         add('pdefault', 'row "keyword-only, partial": default is %s, not the value bound to that name'
                                             % show(built['default'])[:60])
                                     continue
@@ -517,7 +540,7 @@ def rule_mask_names(check, model, rules):
                                     add('table', 'row "keyword-only, partial": replaced by a different parameter (%s)' % show(v[1])[:60])
                                 if 'kind' in kws and kind_of_attr_term(kws['kind']) != 'KWO':
                                     add('kinds', 'row "keyword-only, partial": kind changed to %s' % kind_of_attr_term(kws['kind']))
-                                if kws.get('default') != ('S', named, el):
+                                if not _bound_value(kws.get('default'), named, (el,)):
                                     add('pdefault', 'row "keyword-only, partial": default is %s, not the value bound to that name'
                                         % show(kws.get('default'))[:60])
                             if kwo_pops:
@@ -553,7 +576,7 @@ def rule_mask_names(check, model, rules):
                                 kk = kind_of_attr_term(kd)
                                 if kk != 'KWO':
                                     add('kinds', 'row "absorbed, partial": created parameter has kind %s' % kk)
-                                if kws.get('default') != ('S', named, el):
+                                if not _bound_value(kws.get('default'), named, (el,)):
                                     add('pdefault', 'row "absorbed, partial": default is %s, not the value bound to that name'
                                         % show(kws.get('default'))[:60])
                             srcs = [e for e in src_sets if e.args[0] == el]
@@ -594,6 +617,14 @@ _WIT = {
     'src': "mask(s('a, b'), 0, 'a').sources must not keep 'a'",
     'pdefault': "signature(partial(f, b=2)) must show b=2",
 }
+
+
+def _bound_value(v, named, keys):
+    """v is the value bound to the current name: named[k] or, the name being one of named's keys, named.get(k)"""
+    for k in keys:
+        if v in (('S', named, k), ('M', named, 'get', (k,), ())):
+            return True
+    return False
 
 
 def _built_parameter(sp, v):
@@ -736,7 +767,7 @@ def _row_pok(model, sp, el, carried, pok_in, pok_out, vp_in, vp_out, vp_name, kw
                         add('table', 'row "names a positional-or-keyword parameter, partial": the parameter kept is named %s' % show(built['name'])[:40])
                     if kind_of_attr_term(built['kind']) != 'KWO':
                         add('kinds', 'row "names a positional-or-keyword parameter, partial": kept with kind %s' % kind_of_attr_term(built['kind']))
-                    if built['default'] not in (('S', named, ('A', param, 'name')), ('S', named, el)):
+                    if not _bound_value(built['default'], named, (('A', param, 'name'), el)):
                         add('pdefault', 'row "names a positional-or-keyword parameter, partial": default is %s, not the bound value'
                             % show(built['default'])[:60])
                 elif v[0] == 'M' and v[2] == 'replace' and v[1] == param:
@@ -744,7 +775,7 @@ def _row_pok(model, sp, el, carried, pok_in, pok_out, vp_in, vp_out, vp_name, kw
                     if kind_of_attr_term(kws.get('kind')) != 'KWO':
                         add('kinds', 'row "names a positional-or-keyword parameter, partial": kept with kind %s' % kind_of_attr_term(kws.get('kind')))
                     d = kws.get('default')
-                    if d not in (('S', named, ('A', param, 'name')), ('S', named, el)):
+                    if not _bound_value(d, named, (('A', param, 'name'), el)):
                         add('pdefault', 'row "names a positional-or-keyword parameter, partial": default is %s, not the bound value'
                             % show(d)[:60])
                 else:
